@@ -7,7 +7,9 @@ import (
 	"context"
 	"fmt"
 	"io"
+	"reflect"
 	"runtime/debug"
+	"strconv"
 	"strings"
 
 	"github.com/open2b/scriggo"
@@ -159,7 +161,97 @@ func (r Result) Describe() string {
 	return ""
 }
 
-// FormatPrint formats a value given to the Print hook. It is only used to
-// compare scriggo runs with each other (the gc differential uses the real
-// default print path in a subprocess), so fmt's formatting is enough.
-func FormatPrint(v any) string { return fmt.Sprint(v) }
+// FormatPrint formats a value given to the Print hook exactly as the print
+// and println builtins of gc do (runtime/print.go of go1.25), so that the text
+// can be compared with the stderr of the same program built by gc.
+func FormatPrint(v any) string {
+	switch x := v.(type) {
+	case nil:
+		return "(0x0,0x0)"
+	case string:
+		return x
+	case bool:
+		if x {
+			return "true"
+		}
+		return "false"
+	}
+	r := reflect.ValueOf(v)
+	switch r.Kind() {
+	case reflect.Bool:
+		return fmt.Sprint(r.Bool())
+	case reflect.Int, reflect.Int8, reflect.Int16, reflect.Int32, reflect.Int64:
+		return strconv.FormatInt(r.Int(), 10)
+	case reflect.Uint, reflect.Uint8, reflect.Uint16, reflect.Uint32, reflect.Uint64, reflect.Uintptr:
+		return strconv.FormatUint(r.Uint(), 10)
+	case reflect.Float32, reflect.Float64:
+		return printFloat(r.Float())
+	case reflect.Complex64, reflect.Complex128:
+		c := r.Complex()
+		return "(" + printFloat(real(c)) + printFloat(imag(c)) + "i)"
+	case reflect.String:
+		return r.String()
+	}
+	return fmt.Sprintf("<unprintable %T>", v)
+}
+
+// printFloat is a port of runtime.printfloat.
+func printFloat(v float64) string {
+	switch {
+	case v != v:
+		return "NaN"
+	case v+v == v && v > 0:
+		return "+Inf"
+	case v+v == v && v < 0:
+		return "-Inf"
+	}
+	const n = 7
+	var buf [n + 7]byte
+	buf[0] = '+'
+	e := 0
+	if v == 0 {
+		if 1/v < 0 {
+			buf[0] = '-'
+		}
+	} else {
+		if v < 0 {
+			v = -v
+			buf[0] = '-'
+		}
+		for v >= 10 {
+			e++
+			v /= 10
+		}
+		for v < 1 {
+			e--
+			v *= 10
+		}
+		h := 5.0
+		for i := 0; i < n; i++ {
+			h /= 10
+		}
+		v += h
+		if v >= 10 {
+			e++
+			v /= 10
+		}
+	}
+	for i := 0; i < n; i++ {
+		s := int(v)
+		buf[i+2] = byte(s + '0')
+		v -= float64(s)
+		v *= 10
+	}
+	buf[1] = buf[2]
+	buf[2] = '.'
+	buf[n+2] = 'e'
+	buf[n+3] = '+'
+	if e < 0 {
+		e = -e
+		buf[n+3] = '-'
+	}
+	buf[n+4] = byte(e/100) + '0'
+	buf[n+5] = byte(e/10)%10 + '0'
+	buf[n+6] = byte(e%10) + '0'
+	return string(buf[:])
+}
